@@ -128,6 +128,13 @@ def lm_session(w, sc, mon):
     if S == 0:
         mon.count("degenerate_S0_skipped")
         return
+    if sc.get("refused_first"):
+        # history: a refused presentation on the same executor thread just before the honest one
+        bad = bytes(x ^ 0x01 for x in M1[:1]) + M1[1:]
+        rr = w.call("proof_server", h=3, keep=1, into=8, A=A_bytes, M1=bad)
+        mon.count("refused_attempt_before_honest")
+        if rr.ok:
+            viol("accepts_wrong_proof", "library server accepted a proof with one bit changed")
     r = w.call("proof_server", h=3, into=5, A=A_bytes, M1=M1)
     z, hz = cls_of(S, M.N)
     if r.status == "err" and r.f.get("stage") == "pk":
@@ -239,6 +246,11 @@ def ml_session(w, sc, mon):
         viol("M1:%s:%s" % (gcls, z), "client proof %s != model %s (g=%d N=%s %s %s)" % (M1.hex(), eM1.hex(), g, hex(n), z, hz))
         return
     M2 = M.calc_M2(A_bytes, M1, K)
+    if sc.get("refused_first"):
+        ff = w.call("cli_verify", h=4, keep=1, into=7, M2=bytes(x ^ 0x80 for x in M2[:1]) + M2[1:])
+        mon.count("refused_attempt_before_honest")
+        if ff.ok:
+            viol("accepts_wrong_server_proof", "library client accepted a server proof with one bit changed")
     f = w.call("cli_verify", h=4, into=6, M2=M2)
     if not f.ok:
         viol("client_rejects_model_server:%s:%s" % (gcls, z), "library client refused the model server's proof: %s" % f.f)
@@ -300,7 +312,7 @@ def steer_client_z(rnd, z, want_odd):
 def worker(idx, nworkers, tier, seed, extra):
     mon = Monitor()
     rnd = rng_for(seed, "c03", idx)
-    n_vol = {"quick": 4000, "thorough": 125000}[tier]
+    n_vol = {"quick": 4000, "thorough": 300000}[tier]
     reps = {"quick": 2, "thorough": 24}[tier]
     w = Wsx()
     try:
@@ -374,11 +386,11 @@ def worker(idx, nworkers, tier, seed, extra):
             if k % 2 == 0:
                 mode = "register" if rnd.random() < 0.6 else "db"
                 lm_session(w, {"user": user, "pw": pw, "salt": rb(rnd, 32).hex() if (mode == "db" or rnd.random() < 0.1) else None,
-                               "b": None, "a": rb(rnd, 32).hex(), "vmode": mode}, mon)
+                               "b": None, "a": rb(rnd, 32).hex(), "vmode": mode, "refused_first": rnd.random() < 0.2}, mon)
             else:
                 ml_session(w, {"user": user, "pw": pw, "cuser": case_variant(rnd, user), "cpw": case_variant(rnd, pw),
                                "salt": rb(rnd, 32).hex(), "g": 7, "n": N_HEX, "b": rb(rnd, 32).hex(), "a": None,
-                               "Bmode": "honest"}, mon)
+                               "Bmode": "honest", "refused_first": rnd.random() < 0.2}, mon)
     except ExecutorDied as e:
         mon.violation("c03:executor_died", "executor died rc=%s" % e.rc, {"engine": "wsx", "kind": "raw", "commands": e.last_cmds})
     finally:
